@@ -6,6 +6,8 @@
 -/
 import NutsGen.Facts
 import Nuts.Model.DB
+import Nuts.Model.Tx
+import Nuts.Model.BPTree
 namespace NutsProofs.Facts
 open NutsGen.F
 
@@ -194,5 +196,66 @@ theorem merge_calls_ok :
 `*DB` is read or written, and no nutsdb function is called, at a point the call of `Begin` does not dominate
 (computed on the SSA of `reWriteData` by dominance) -/
 theorem rewrite_under_lock : rewriteUnlocked = [] := by decide
+
+/-- **`isFilterEntry`, regenerated.** The model's `isFilter` (which records Merge never rewrites) is the
+kernel that `tools/extract` regenerates from the SSA of `DB.isFilterEntry`, with every flag load bound to the
+record's flag and the call of `IsExpired` bound to the model's `isExpired` (itself the regenerated `IsExpired`
+kernel): a flag added to or dropped from the test, or a changed expiry condition, breaks this theorem. -/
+theorem isFilter_is_kernel (r : Nuts.Model.DB.Rec) (now : Nat) :
+    Nuts.Model.DB.isFilter r now =
+      ((NutsGen.K.db_isFilterEntry.run r.flag r.ttl r.ts (Nuts.Model.DB.isExpired r.ttl r.ts now)
+          r.flag r.flag r.flag r.flag r.flag r.flag r.flag r.flag).vals == [1]) := by
+  unfold Nuts.Model.DB.isFilter NutsGen.K.db_isFilterEntry.run
+  simp only [Nuts.Model.DB.flagDelete, Nuts.Model.DB.flagRPop, Nuts.Model.DB.flagLPop, Nuts.Model.DB.flagLRem,
+    Nuts.Model.DB.flagLTrim, Nuts.Model.DB.flagZRem, Nuts.Model.DB.flagZRemRangeByRank, Nuts.Model.DB.flagZPopMax,
+    Nuts.Model.DB.flagZPopMin]
+  by_cases h0 : r.flag = 0
+  · simp [h0]
+  · by_cases h6 : r.flag = 6
+    · simp [h6]
+    · by_cases h5 : r.flag = 5
+      · simp [h5]
+      · by_cases h4 : r.flag = 4
+        · simp [h4]
+        · by_cases h8 : r.flag = 8
+          · simp [h8]
+          · by_cases h10 : r.flag = 10
+            · simp [h10]
+            · by_cases h11 : r.flag = 11
+              · simp [h11]
+              · by_cases h12 : r.flag = 12
+                · simp [h12]
+                · by_cases h13 : r.flag = 13
+                  · simp [h13]
+                  · have e0 : ¬ ((r.flag : Int) = 0) := by omega
+                    have e6 : ¬ ((r.flag : Int) = 6) := by omega
+                    have e5 : ¬ ((r.flag : Int) = 5) := by omega
+                    have e4 : ¬ ((r.flag : Int) = 4) := by omega
+                    have e8 : ¬ ((r.flag : Int) = 8) := by omega
+                    have e10 : ¬ ((r.flag : Int) = 10) := by omega
+                    have e11 : ¬ ((r.flag : Int) = 11) := by omega
+                    have e12 : ¬ ((r.flag : Int) = 12) := by omega
+                    have e13 : ¬ ((r.flag : Int) = 13) := by omega
+                    simp only [e0, e6, e5, e4, e8, e10, e11, e12, e13, if_false]
+                    have b0 : (r.flag == 0) = false := by simpa using h0
+                    have b6 : (r.flag == 6) = false := by simpa using h6
+                    have b5 : (r.flag == 5) = false := by simpa using h5
+                    have b4 : (r.flag == 4) = false := by simpa using h4
+                    have b8 : (r.flag == 8) = false := by simpa using h8
+                    have b10 : (r.flag == 10) = false := by simpa using h10
+                    have b11 : (r.flag == 11) = false := by simpa using h11
+                    have b12 : (r.flag == 12) = false := by simpa using h12
+                    have b13 : (r.flag == 13) = false := by simpa using h13
+                    simp only [b0, b6, b5, b4, b8, b10, b11, b12, b13, Bool.false_or]
+                    cases Nuts.Model.DB.isExpired r.ttl r.ts now <;> simp
+
+/-- **the split points of the B+ tree, regenerated.** `Nuts.Model.BPTree` splits a full leaf (`order` = 8
+entries) 4 / 4 and a full inner node (8 keys) 4 / up / 3; both 4s are `getSplitIndex` — of `order` for a leaf,
+of `order - 1` for an inner node — evaluated on the kernel regenerated from bptree.go, with `order` the
+regenerated constant. -/
+theorem bptree_split_points :
+    lookup consts "order" = some 8 ∧ (NutsGen.K.getSplitIndex.run 8).vals = [4] ∧ (NutsGen.K.getSplitIndex.run 7).vals = [4] ∧
+    Nuts.Model.BPTree.maxKeys = 7 := by
+  decide
 
 end NutsProofs.Facts
